@@ -100,6 +100,7 @@ def run(F, R, tier):
     disp = ref["dispatch"]
     if R.anchor("get_inner", gi):
         n_arms = 0
+        tables_seen = set()
         # the enclosing arm of each selector match (per kind of object get_inner is handed)
         encl = {}
         for tm in H.walk(H.body_of(gi)):
@@ -124,6 +125,7 @@ def run(F, R, tier):
             holder = sc.split(".")[0]
             got = {}
             default_null = False
+            tables_seen_here = set()
             for a in m["arms"]:
                 p = a["pat"]
                 if p.get("k") == "ppath":
@@ -140,6 +142,8 @@ def run(F, R, tier):
                         if len(pts) == 1 and len({c["callee"] for c in later}) == 1:
                             layer, callee = pts.pop(), later[0]["callee"]
                     got[str(val)] = (layer, callee, a.get("line"))
+                    if callee:
+                        tables_seen.add(H.last(callee))
                 elif p.get("k") == "wild":
                     bt = H.render(H.strip(a["body"]))
                     default_null = bt in ("Rc::new(Object::Null)", "Object::Null")
@@ -167,6 +171,11 @@ def run(F, R, tier):
             R.ob("layer-dispatch", "%s: no other selector value is dispatched; others yield null" % sc, not extra and default_null,
                  "extra: %s; default null: %s" % (sorted(extra), default_null), F.loc(gi))
         R.floor("dispatch arms", n_arms, 8)
+        # every layer that carries a selector field has such a table (a dispatch written in another form is reported as
+        # unreadable rather than skipped)
+        for holder_fn in ("exec_prop_eth", "exec_prop_vlan", "exec_prop_ipv4", "exec_prop_ipv6"):
+            R.ob("layer-dispatch", "get_inner has a selector table that dispatches into %s" % holder_fn, holder_fn in tables_seen,
+                 "selector tables read for: %s" % sorted(tables_seen), F.loc(gi))
 
     # ---- (d) named layer properties test the selector field -------------------------------------------------------
     sel_getter = {"eth": "get_ethertype_raw", "vlan": "get_ethertype_raw", "ipv4": "get_protocol_raw", "ipv6": "get_next_header_raw"}
